@@ -6,7 +6,7 @@ LEVEL = 'proof'
 
 def build(ctx):
     import contracts.relocate  # noqa
-    common.pass_tasks(ctx, ['transform_pseudo_instructions', 'resolve_immediates'])
+    common.pass_tasks(ctx, ['transform_pseudo_instructions', 'transform_compressible', 'resolve_immediates'])
     ctx.task('contracts.relocate:task_relocate')
     ctx.task('contracts.exprs:task_exprs')
     common.encoder_tasks(ctx, lambda m: m in ('addi', 'xori', 'sltiu', 'sub', 'sltu', 'slt', 'lui', 'auipc', 'jal', 'jalr', 'beq', 'bne',
